@@ -67,7 +67,9 @@ def plan(ctx):
 BIG = {"on": False}
 
 
-def gen_table(rng, n=None, need_K=False):
+def gen_table(rng, n=None, need_K=False, mixed_dtype=False):
+    """mixed_dtype=True: some (not all) columns are float32 arrays holding float32-representable values, all angular /
+    period columns already in the internal units (so that packing converts nothing and values must come back exactly)"""
     if BIG["on"]:
         n = int(rng.integers(200, 3000))
     if n is None:
@@ -80,14 +82,18 @@ def gen_table(rng, n=None, need_K=False):
     import astropy.units as u
 
     def add(name, unit, vals):   # unit labels are kept in astropy's canonical spelling
-        d["cols"].append(dict(name=name, unit=str(u.Unit(unit)), vals=[float(v) for v in vals]))
+        dt = "f4" if (mixed_dtype and (rng.random() < 0.5 or name == "P")) else "f8"
+        if mixed_dtype and name == "omega":
+            dt = "f8"                    # at least one wide column next to the narrow ones
+        vals = np.asarray(vals, dtype=dt).astype("f8")
+        d["cols"].append(dict(name=name, unit=str(u.Unit(unit)), vals=[float(v) for v in vals], dtype=dt))
 
-    add("P", str(rng.choice(["d", "yr", "h"])), 10 ** rng.uniform(-1, 3, n))
+    add("P", "d" if mixed_dtype else str(rng.choice(["d", "yr", "h"])), 10 ** rng.uniform(-1, 3, n))
     add("e", "", rng.uniform(0, 0.95, n))
-    aunit = str(rng.choice(["rad", "deg"]))
+    aunit = "rad" if mixed_dtype else str(rng.choice(["rad", "deg"]))
     turn = 360.0 if aunit == "deg" else 2 * math.pi
     add("omega", aunit, rng.uniform(-2.5, 2.5, n) * turn)
-    munit = str(rng.choice(["rad", "deg"]))
+    munit = "rad" if mixed_dtype else str(rng.choice(["rad", "deg"]))
     mturn = 360.0 if munit == "deg" else 2 * math.pi
     add("M0", munit, rng.uniform(-1.5, 2.5, n) * mturn)
     add("s", str(rng.choice(["km / s", "m / s"])), rng.uniform(0, 3, n))
@@ -114,7 +120,7 @@ def build(d):
         kw["t_ref"] = Time(d["t_ref"], format="mjd", scale="tcb")
     s = JokerSamples(**kw)
     for c in d["cols"]:
-        s[c["name"]] = np.array(c["vals"], dtype=float) * u.Unit(c["unit"])
+        s[c["name"]] = np.array(c["vals"], dtype=c.get("dtype", "f8")) * u.Unit(c["unit"])
     return s
 
 
@@ -608,9 +614,14 @@ def pack_case(ctx, g, rng):
     import astropy.units as u
     from astropy.time import Time
     from thejoker import JokerSamples
-    d = gen_table(rng, n=int(rng.choice([1, 2, 9, int(rng.integers(1, 80))])))
+    mixed = bool(rng.random() < 0.25)
+    d = gen_table(rng, n=int(rng.choice([1, 2, 9, int(rng.integers(1, 80))])), mixed_dtype=mixed)
     s = build(d)
     mode = str(rng.choice(["default", "all", "names", "units"], p=[0.25, 0.25, 0.2, 0.3]))
+    if mixed:
+        ctx.count("pack:mixed float32/float64 table")
+        if mode == "units":
+            mode = "names"
     kw = {}
     names_decl = None
     units_decl = {}
@@ -763,3 +774,4 @@ def post(ctx):
     for k in ("default", "all", "names", "units"):
         ctx.require(f"pack mode {k}", c[f"pack:{k}"], 15)
     ctx.require("pack with a unit conversion", c["pack:converted"], 40)
+    ctx.require("pack of tables mixing float32 and float64 columns", c["pack:mixed float32/float64 table"], 15)
